@@ -47,6 +47,8 @@ def default_style(world, cname, attr):
     for c in d.lineage(cname):
         for a in c.attrs:
             if a.name == attr:
+                if a.default is None and (not a.annotated or a.bare):
+                    continue  # (only overrides the preparer methods / re-declares by annotation only)
                 if a.default is None:
                     return "none"
                 if c.kind == "plain":
